@@ -4,7 +4,6 @@ import (
 	"errors"
 	"fmt"
 	"sort"
-	"strings"
 	"time"
 
 	"github.com/buzzfeed/sso/internal/pkg/sessions"
@@ -131,7 +130,7 @@ func (p *SingleFlightProvider) RefreshSessionIfNeeded(s *sessions.SessionState) 
 // ValidateGroupMembership wraps the provider's GroupsResource function in a single flight call.
 func (p *SingleFlightProvider) ValidateGroupMembership(email string, allowedGroups []string, accessToken string) ([]string, error) {
 	sort.Strings(allowedGroups)
-	response, err := p.do("ValidateGroupMembership", fmt.Sprintf("%s:%s", email, strings.Join(allowedGroups, ",")),
+	response, err := p.do("ValidateGroupMembership", fmt.Sprintf("%q:%q", email, allowedGroups),
 		func() (interface{}, error) {
 			return p.provider.ValidateGroupMembership(email, allowedGroups, accessToken)
 		})
